@@ -296,16 +296,28 @@ class ClockControl:
 
 
 @contextlib.contextmanager
-def controlled_clock():
+def controlled_clock(jwt: bool = False):
     """appboot.Clock plus the one place it does not reach: models/token.py does
     `from datetime import datetime`, so `prune_database`/`has_expired` keep the real class.
     The start is one hour after the real time: session cookies and JWTs made when the world was
-    built stay valid (their signatures carry real timestamps), only forward offsets are used."""
+    built stay valid (their signatures carry real timestamps), only forward offsets are used.
+    `jwt=True` additionally gives the JWT libraries this clock (token `exp` handling)."""
     import datetime as _dt
     import dashlive.server.models.token as token_mod
     start = (_dt.datetime.now(_dt.timezone.utc) + _dt.timedelta(hours=1)).replace(microsecond=0)
     with appboot.Clock(start) as clock:
-        with mock.patch.object(token_mod, "datetime", clock._cls):
+        with contextlib.ExitStack() as stack:
+            stack.enter_context(mock.patch.object(token_mod, "datetime", clock._cls))
+            if jwt:
+                # the JWT libraries import the class too: `iat`/`exp` are written and checked with it.
+                # Only for scenarios that make their own logins under this clock (the world's tokens
+                # carry real timestamps).
+                import flask_jwt_extended.config as fjc
+                import flask_jwt_extended.tokens as fjt
+                import flask_jwt_extended.view_decorators as fjv
+                import jwt.api_jwt as pyjwt
+                for mod in (fjc, fjt, fjv, pyjwt):
+                    stack.enter_context(mock.patch.object(mod, "datetime", clock._cls))
             yield ClockControl(clock, start)
 
 
